@@ -228,6 +228,7 @@ contract(
                               "and key_at(result, 2) == 'a_batch' and key_at(result, 3) == 'g_batch'"),
              ('bytes_actually_held', "result['a_factors'] == bytes_of(old(awaited(self._a_factor))) and "
                                      "result['g_factors'] == bytes_of(old(awaited(self._g_factor))) and "
-                                     "result['a_batch'] == bytes_of(self._a_batch) and result['g_batch'] == bytes_of(self._g_batch)")],
-    modifies=['self._a_factor', 'self._g_factor', '*.resolved'],
+                                     "result['a_batch'] == bytes_of(self._a_batch) and result['g_batch'] == bytes_of(self._g_batch)"),
+             ('tensors_kept', 'awaited(self._a_factor) is old(awaited(self._a_factor)) and awaited(self._g_factor) is old(awaited(self._g_factor))')],
+    modifies=['self._a_factor', 'self._g_factor', '*.resolved'], theories=['opaque_nonlinear'],
 )
